@@ -1,5 +1,14 @@
 package harness
 
+import (
+	"fmt"
+	"strings"
+
+	"github.com/ipld/go-storethehash/verifshim/vos"
+)
+
+func stringsContains(s, sub string) bool { return strings.Contains(s, sub) }
+
 // Scenario definitions for the properties decided by engine S.
 
 func cfg(primary string, imm bool, bits uint8, ifs, pfs uint32) Config {
@@ -113,6 +122,355 @@ func c01Scenarios(tier string) []*SeqScenario {
 		Op{Kind: OpGet, K: 0}, Op{Kind: OpGet, K: 1}, Op{Kind: OpHas, K: 2}, Op{Kind: OpGetSize, K: 3})
 	for _, c := range quickConfigs() {
 		scs = append(scs, &SeqScenario{Prop: "C01", Name: "c01-wide", Cfg: c, Alphabet: wide, Depth: 4, Nontrivial: sharedBucketNontrivial})
+	}
+	return scs
+}
+
+// ---- GC scenarios (C04, C07, C11, C13) ----
+
+func withLedger(w *World) {
+	w.ledger = &Ledger{}
+	w.FS.StartLog(true)
+}
+
+// gcActionCounters classifies the logged mutations of GC code by action so
+// that evidence shows which GC mechanisms the enumeration really exercised.
+func gcActionCounters(w *World, c *Collector) {
+	for _, m := range w.FS.Log() {
+		inner, outer, _ := strings.Cut(m.Site, "<")
+		in := func(sub string) bool { return strings.Contains(inner, sub) }
+		out := func(sub string) bool { return strings.Contains(outer, sub) }
+		switch {
+		case in("reapIndexRecords") && m.Kind == vos.MWrite:
+			c.count("gc.index.mark_or_merge", 1)
+		case in("reapIndexRecords") && m.Kind == vos.MTrunc:
+			c.count("gc.index.truncate_tail", 1)
+		case in("truncateFreeFiles") && m.Kind == vos.MTrunc:
+			c.count("gc.index.empty_file", 1)
+		case in("truncateFreeFiles") && m.Kind == vos.MRemove:
+			c.count("gc.index.unlink_free_file", 1)
+		case in("index.writeHeader") && (out("truncateFreeFiles") || out("index.(*Index).gc")) && m.Kind == vos.MWrite:
+			c.count("gc.index.header_advance", 1)
+		case in("index.(*Index).gc") && m.Kind == vos.MRemove:
+			c.count("gc.index.unlink", 1)
+		case in("deleteRecords") && m.Kind == vos.MWrite:
+			c.count("gc.primary.freelist_apply", 1)
+		case in("reapRecords") && m.Kind == vos.MWrite:
+			c.count("gc.primary.merge", 1)
+		case in("reapRecords") && m.Kind == vos.MTrunc:
+			c.count("gc.primary.truncate_tail", 1)
+		case in("multihash.writeHeader") && out("(*primaryGC).gc") && m.Kind == vos.MWrite:
+			c.count("gc.primary.header_advance", 1)
+		case in("multihash.(*primaryGC).gc") && m.Kind == vos.MRemove:
+			c.count("gc.primary.unlink", 1)
+		case in("processFreeList") && m.Kind == vos.MRemove:
+			c.count("gc.primary.freelist_batch_done", 1)
+		case in("ToGC") && m.Kind == vos.MRename:
+			c.count("gc.freelist.handover", 1)
+		}
+	}
+	c.count("gc.primary.relocated_records", int64(w.relocs))
+}
+
+// gcFinal is the end-of-history battery of the map oracle for GC histories
+// (C04): nothing a GC cycle did may change what a later read or reopen sees.
+func gcFinal(w *World, c *Collector) *Violation {
+	if v := w.Step(Op{Kind: OpFlush}); v != nil {
+		return v
+	}
+	if v := w.Reads(); v != nil {
+		return v
+	}
+	if v := w.Iterate(); v != nil {
+		return v
+	}
+	gcActionCounters(w, c)
+	if v := w.Step(Op{Kind: OpReopen, A: 1}); v != nil {
+		return v
+	}
+	if v := w.Reads(); v != nil {
+		return v
+	}
+	return nil
+}
+
+// fsckFinal is the battery of C07: flush, check the files against the live
+// table; close, check the files against snapshot and rescan.
+func fsckFinal(w *World, c *Collector) *Violation {
+	if v := w.Step(Op{Kind: OpFlush}); v != nil {
+		return v
+	}
+	if v := w.FsckOpen(); v != nil {
+		return v
+	}
+	gcActionCounters(w, c)
+	if err := w.Close(); err != nil {
+		return viol("call-error", "Close: %v", err)
+	}
+	if v := w.FsckClosed(); v != nil {
+		return v
+	}
+	c.count("fsck.states_checked", 2)
+	return nil
+}
+
+// ledgerFinal is the battery of C13.
+func ledgerFinal(w *World, c *Collector) *Violation {
+	if v := w.Step(Op{Kind: OpFlush}); v != nil {
+		return v
+	}
+	if v := w.ledger.Check(w, false); v != nil {
+		return v
+	}
+	gcActionCounters(w, c)
+	if w.mh() != nil {
+		if v := w.Step(Op{Kind: OpPriGC, A: 101}); v != nil {
+			return v
+		}
+		if v := w.ledger.Check(w, true); v != nil {
+			return v
+		}
+	}
+	c.count("ledger.expected_frees", int64(len(w.ledger.expected)))
+	return nil
+}
+
+func gcConfigs(tier string) []Config {
+	cs := []Config{
+		cfg("mh", false, 8, 1, 1),
+		cfg("mh", false, 8, 48, 48),
+		cfg("mh", false, 8, 48, 1),
+		cfg("cid", false, 8, 1, bigFile),
+	}
+	if tier != "quick" {
+		cs = append(cs,
+			cfg("mh", false, 8, 1, 48),
+			cfg("mh", false, 12, 48, 48),
+			cfg("mh", true, 8, 48, 48),
+			cfg("cid", false, 8, 48, bigFile),
+		)
+		d := cfg("mh", false, 8, 48, 48)
+		d.MapDesc = true
+		cs = append(cs, d)
+	}
+	return cs
+}
+
+// gcPreambles are start states that contain superseded record lists, freed
+// primary records and a low-use primary file, so that depth-bounded
+// enumeration starts where the collectors have work.
+func gcPreambles() [][]Op {
+	P := func(k, v int) Op { return Op{Kind: OpPut, K: k, V: v} }
+	F := Op{Kind: OpFlush}
+	return [][]Op{
+		nil,
+		{P(0, 1), P(1, 1), P(3, 1), P(4, 1), F, P(0, 2), P(1, 2), P(3, 2), F},
+		{P(0, 1), F, P(1, 1), F, P(4, 1), F, {Kind: OpRemove, K: 0}, F, P(0, 2), F},
+		{P(0, 1), P(0, 2)},
+		{P(0, 1), P(1, 1), F, P(0, 2), {Kind: OpRemove, K: 1}},
+	}
+}
+
+func gcAlphabet(tier string) []Op {
+	alpha := putOps([]int{0, 1, 4}, []int{1, 2})
+	alpha = append(alpha, removeOps([]int{0, 1})...)
+	alpha = append(alpha, Op{Kind: OpFlush},
+		Op{Kind: OpIdxGC, B: true}, Op{Kind: OpIdxGC, B: false},
+		Op{Kind: OpPriGC, A: 0}, Op{Kind: OpPriGC, A: 50})
+	if tier != "quick" {
+		alpha = append(alpha, Op{Kind: OpPriGC, A: 85}, Op{Kind: OpPriGC, A: 101},
+			Op{Kind: OpIdxGC, B: true, A: 2}, Op{Kind: OpIdxGC, B: false, A: 3},
+			Op{Kind: OpPriGC, A: 0, V: 1}, Op{Kind: OpPriGC, A: 50, V: 2},
+			Op{Kind: OpReopen, A: 0}, Op{Kind: OpReopen, A: 1})
+	}
+	return alpha
+}
+
+func gcNontrivial(w *World, hist []Op) bool {
+	// a GC op actually mutated the file system
+	for _, m := range w.FS.Log() {
+		if stringsContains(m.Site, "gc") || stringsContains(m.Site, "reap") || stringsContains(m.Site, "deleteRecords") || stringsContains(m.Site, "truncateFreeFiles") {
+			return true
+		}
+	}
+	return false
+}
+
+func gcScenarios(prop, tier string) []*SeqScenario {
+	var scs []*SeqScenario
+	depth := 3
+	if tier != "quick" {
+		depth = 4
+	}
+	for _, c := range gcConfigs(tier) {
+		for pi, pre := range gcPreambles() {
+			d := depth
+			if pi == 0 {
+				d = depth + 1
+			}
+			sc := &SeqScenario{Prop: prop, Name: "gc", Cfg: c, Preamble: pre, Alphabet: gcAlphabet(tier), Depth: d,
+				Setup: withLedger, Final: gcFinal, Nontrivial: gcNontrivial}
+			switch prop {
+			case "C07":
+				sc.Final, sc.Oracles = fsckFinal, []string{"fsck"}
+			case "C13":
+				sc.Final, sc.Oracles = ledgerFinal, []string{"ledger"}
+				sc.Nontrivial = func(w *World, hist []Op) bool { return len(w.ledger.expected) > 0 }
+			}
+			scs = append(scs, sc)
+		}
+	}
+	return scs
+}
+
+// ---- C02: clean Close / reopen ----
+
+type obsVec []string
+
+// observe returns Get results for every key and probe of the world on the
+// given store (not compared with the model).
+func observeStore(w *World) obsVec {
+	var out obsVec
+	for _, ks := range [][]Key{w.Keys, w.Probes} {
+		for _, k := range ks {
+			v, found, err := w.S.Get(k.Raw)
+			out = append(out, fmt.Sprintf("%s:%v:%q:%v", k.Name, found, v, err))
+		}
+	}
+	return out
+}
+
+// forkOpen opens a copy of img (optionally without the bucket snapshot) and
+// returns the live bucket table resolved to record-list bytes, and the
+// observation vector.
+func forkOpen(parent *World, img vos.Image, dropSnapshot bool) (lists map[int]string, obs obsVec, err error) {
+	fw := &World{Cfg: parent.Cfg, FS: vos.FromImage(img), Model: parent.Model, GCInt: parent.GCInt, Sync: parent.Sync, Keys: parent.Keys, Probes: parent.Probes}
+	if dropSnapshot {
+		fw.FS.RemoveRaw(idxPath + ".buckets")
+	}
+	if err := fw.Open(); err != nil {
+		return nil, nil, err
+	}
+	tbl := fw.liveTable()
+	view := loadFsck(fw.FS, fw.Cfg)
+	lists = make(map[int]string)
+	for b, pos := range tbl {
+		if pos == 0 {
+			continue
+		}
+		r, why := view.resolveBucket(pos)
+		if r == nil {
+			lists[b] = "UNRESOLVED: " + why
+			continue
+		}
+		if len(r.Raw) > 4 {
+			lists[b] = string(r.Raw)
+		}
+	}
+	obs = observeStore(fw)
+	fw.Close()
+	return lists, obs, nil
+}
+
+// reopenDifferential closes the store, forks the directory image and reopens
+// it once through the snapshot and once through a rescan; both must denote the
+// same record list for every bucket and answer every read identically.
+func (w *World) reopenDifferential() *Violation {
+	if err := w.Close(); err != nil {
+		return viol("call-error", "Close: %v", err)
+	}
+	if err := w.S.Close(); err != nil {
+		return viol("call-error", "second Close: %v", err)
+	}
+	img := w.FS.Image()
+	defer vos.SetBackend(w.FS)
+	la, oa, err := forkOpen(w, img, false)
+	if err != nil {
+		return violO("diff", "open-error", "reopen through snapshot: %v", err)
+	}
+	lb, ob, err := forkOpen(w, img, true)
+	if err != nil {
+		return violO("diff", "open-error", "reopen through rescan: %v", err)
+	}
+	for b, l := range la {
+		if lb[b] != l {
+			return violO("diff", "recovery-paths-differ", "bucket %#x: snapshot path resolves to %x, rescan path to %x", b, l, lb[b])
+		}
+	}
+	for b, l := range lb {
+		if la[b] != l {
+			return violO("diff", "recovery-paths-differ", "bucket %#x: snapshot path resolves to %x, rescan path to %x", b, la[b], l)
+		}
+	}
+	for i := range oa {
+		if oa[i] != ob[i] {
+			return violO("diff", "recovery-paths-differ", "read differs: snapshot path %s, rescan path %s", oa[i], ob[i])
+		}
+	}
+	vos.SetBackend(w.FS)
+	return nil
+}
+
+func c02Final(w *World, c *Collector) *Violation {
+	if v := w.Reads(); v != nil {
+		return v
+	}
+	if v := w.reopenDifferential(); v != nil {
+		return v
+	}
+	// the world is closed now; reopen through the snapshot and compare with the model
+	if err := w.Open(); err != nil {
+		return viol("open-error", "reopen: %v", err)
+	}
+	if v := w.Reads(); v != nil {
+		return v
+	}
+	if v := w.Iterate(); v != nil {
+		return v
+	}
+	return nil
+}
+
+func reopenCount(hist []Op) int {
+	n := 0
+	for _, o := range hist {
+		if o.Kind == OpReopen {
+			n++
+		}
+	}
+	return n
+}
+
+func c02Scenarios(tier string) []*SeqScenario {
+	var scs []*SeqScenario
+	alpha := append(putOps([]int{0, 1, 4}, []int{0, 1, 2}), removeOps([]int{0, 1})...)
+	alpha = append(alpha, Op{Kind: OpFlush},
+		Op{Kind: OpReopen, A: 0}, Op{Kind: OpReopen, A: 1}, Op{Kind: OpReopen, A: 2}, Op{Kind: OpReopen, A: 3},
+		Op{Kind: OpIdxGC, B: true}, Op{Kind: OpPriGC, A: 50})
+	depth := 4
+	cfgs := []Config{
+		cfg("mh", false, 8, 1, 1),
+		cfg("mh", false, 8, 48, 48),
+		cfg("mh", false, 8, bigFile, bigFile),
+		cfg("mh", true, 12, 48, 48),
+		cfg("cid", false, 8, 48, bigFile),
+		cfg("cid", false, 9, 1, bigFile),
+	}
+	if tier != "quick" {
+		depth = 5
+		cfgs = append(cfgs, cfg("mh", false, 16, 48, 1), cfg("mh", false, 9, 1, 48), cfg("cid", true, 8, bigFile, bigFile))
+		alpha = append(alpha, Op{Kind: OpIdxGC, B: false}, Op{Kind: OpPriGC, A: 0})
+	}
+	allow := func(hist []Op) bool { return reopenCount(hist) <= 2 }
+	nontriv := func(w *World, hist []Op) bool { return reopenCount(hist) > 0 && len(w.Model) > 0 }
+	for _, c := range cfgs {
+		scs = append(scs, &SeqScenario{Prop: "C02", Name: "c02", Cfg: c, Alphabet: alpha, Depth: depth, Allow: allow,
+			Final: c02Final, Oracles: []string{"map", "diff"}, Nontrivial: nontriv})
+		for pi, pre := range gcPreambles()[1:3] {
+			_ = pi
+			scs = append(scs, &SeqScenario{Prop: "C02", Name: "c02-pre", Cfg: c, Preamble: pre, Alphabet: alpha, Depth: depth - 2, Allow: allow,
+				Final: c02Final, Oracles: []string{"map", "diff"}, Nontrivial: nontriv})
+		}
 	}
 	return scs
 }
